@@ -1,6 +1,6 @@
 /* VERIF-GROUP
 {
- "property": ["C20", "C14"],
+ "property": ["C20", "C14", "C15"],
  "entry": "h_keys_loop",
  "enforce": ["aws_readkeys"],
  "replace": [],
